@@ -28,17 +28,17 @@ META = {
                   "Part A, for every term of a syntax with one constructor per case of free_vars.rs (Var, Fun, Let rec/non-rec, App, Op1/Op2/OpN, arrays, enum variants, string chunks, Annotated, Sealed, Closurize, record values, RecRecord with static / included / dynamic fields, custom contracts, types: atoms, variables, forall, dict, array, arrow, record rows, enum rows with argument types and tails, Contract(term)): "
                   "C07_collect_sound_complete - the model of CollectFreeVars returns exactly the variables that occur free according to an independent inductive specification (record literals bind their static and included names in field values and annotations, not in dynamic field names; include x is an occurrence of the outer x); "
                   "C07_deps_complete_stat/_incl/_dyn and C07_deps_sound_stat - the RecordDeps entry of every static, included and dynamic field contains exactly the recursive fields free in its annotations and value; C07_deps_pre_fix_refuted - the analysis before fix a9a5295 (enum types skipped) violates this on { Ctr = Number, x | [| 'A Ctr |] = 'A 1 }. "
-                  "Part B, for flat recursive records of integer expressions (n, x, +, *, if a <= b) with all priority forms, fields without definition, dynamically named fields, and every override history (literals, merges of any earlier results, re-merging, an operand used several times, the empty record): "
-                  "C07_history_fields - no step panics, and after the whole history every field of every step (merge results and operands alike), read through the thunks of the mechanism model, equals - same value or same error class, same fuel - the field of the single specification record obtained by substituting the winning definitions (higher priority wins, equal priorities give the piecewise definition d1 & d2, each definition keeps the lexical scope of its literal, every name bound late to the same final record); "
+                  "Part B, for flat recursive records of integer expressions (n, x, +, *, if a <= b) with all priority forms, fields without definition, dynamically named fields, contracts that depend on fields (v >= e, v != e with e over the siblings; pending contracts are thunks that are reverted and patched like values), and every override history (literals, merges of any earlier results, re-merging, an operand used several times, the empty record): "
+                  "C07_history_fields - no step panics, and after the whole history every field of every step (merge results and operands alike), read through the thunks of the mechanism model, equals - same value or same error class, same fuel - the field of the single specification record obtained by substituting the winning definitions (higher priority wins, equal priorities give the piecewise definition d1 & d2, the contracts of all operands accumulate, each definition keeps the lexical scope of its literal, every name bound late to the same final record); "
                   "C07_override_refines, C07_eval_literal_ok, C07_merge_ok (invariant `coherent`: every revertible thunk of a record instance is cached on its own instance, dependencies known and within the field names, side filters of saturated bodies nested; preserved; abs(merge) ~ smerge(abs, abs)), C07_operands_unchanged, C07_merge_refines, C07_extends_coherent; "
                   "C07_vars_free / C07_cfg_partA_faithful / C07_literal_deps_agree_* - the dependency sets the mechanism uses are those of part A. "
-                  "These hold for the configuration with the patch proposed for BinaryOp::RecordInsert and (C07_history_fields_current) for the Rust code as it is on histories without dynamically named fields; C07_dynamic_field_indirection_refuted: the code as it is gives 11 instead of 6 for the dynamically named field of `{b | default = 10, \"%{n}\" = b + 1} & {b = 5}` (known finding, reproduced on the implementation). "
+                  "These hold for the code since fix 8192ce0 (BinaryOp::RecordInsert keeps the thunk of a dynamically named field; configuration cfg_fixed, selected by reading operation.rs/closurize.rs) and (C07_history_fields_current) for the code before it on histories without dynamically named fields; C07_dynamic_field_indirection_refuted: the earlier code gave 11 instead of 6 for the dynamically named field of `{b | default = 10, \"%{n}\" = b + 1} & {b = 5}` (the defect this property found; the model reproduced the implementation's 11). "
                   "Teeth: C07_revert_keeps_cache_panics/_refuted/_overwrite_refuted (revert = clone), C07_inplace_revert_refuted, C07_deps_incomplete_refuted/_after_override_refuted. "
                   "Ties: (A) harness c07fv parses source with the real parser, converts it with to_mainline, runs transform::free_vars::transform, prints the real term in the model's syntax (exhaustive matches, a new variant does not compile; the Rust enums are also read from source and compared with the covered constructors) and its RecordDeps; the extracted model is run on that term: corpus, every .ncl file of /repo (stdlib included), generated programs over 5 colliding names. "
                   "(B) generated override histories on the extracted mechanism model (configured as closurize.rs is, read from source), on the extracted specification and on the real interpreter (every field of every step, by value or error class; normal and with hook H4). "
                   "(O) on the implementation alone, structured records with static, nested, piecewise, dynamically named and included fields, dependencies through arithmetic, interpolation, if, arrays, functions, match, inline records, contracts depending on fields, 1-3 overriding operands in 7 merge shapes: merged = textually substituted record (whole export, and leaf by leaf when some field fails), = the same with all dependencies unknown, operands read after the merge = operands alone, merge after forcing the operands = merge.",
     "level_note": "Trusted: Coq kernel; extraction (ExtrOcamlBasic only); harness bins c07fv and nkeval; the Python generators; the reading of lazy.rs / merge.rs / fixpoint.rs / closurize.rs / eval/mod.rs in coq/Rec/Mech.v (value level: Rc<RefCell> thunks as cells of a list heap; `cached = Some rid` stands for the closure built by init_cached; saturate's explicit function + application is represented by a body that keeps its own dependency filter; constants are standard thunks; the order of fields inside a record and memoisation of evaluated thunks are not modelled - the latter is exercised by the forcing-order variants of the correspondence). "
-                  "Partial: the Coq mechanism/specification cover flat records of integer expressions; nested records, piecewise paths, includes, strings, arrays, functions and contracts that depend on fields are covered by part A (dependency analysis, all syntax) and by the direct oracles on the implementation, not by the refinement proof; FieldDeps::Unknown (hook H4) is in the executable model and compared with the implementation, the theorems assume known dependencies. Known finding dynamic-field-not-recomputed (proposed patch in proposed/C07-record-insert-keep-revertible-thunk.diff).",
+                  "Partial: the Coq mechanism/specification cover flat records of integer expressions; nested records, piecewise paths, includes, strings, arrays, functions and general contract expressions are covered by part A (dependency analysis, all syntax) and by the direct oracles on the implementation, not by the refinement proof; FieldDeps::Unknown (hook H4) is in the executable model and compared with the implementation, the theorems assume known dependencies. Finding fixed during the build: dynamic-field-not-recomputed (8192ce0, patch kept in proposed/C07-record-insert-keep-revertible-thunk.diff).",
 }
 
 REPO = core.REPO
@@ -257,6 +257,8 @@ def parse_model_fields(s):
 def expect_line(v):
     if v.startswith("#"):
         return "OK " + v
+    if v == "E:Blame":
+        return "ERR Blame+"
     if v.startswith("E:"):
         return "ERR " + v[2:]
     if v == "FUEL":
@@ -606,9 +608,10 @@ def run(ck):
                            "(all priority forms, valueless fields, bodies of depth <= 3 over sibling names) and 1-4 merges of earlier steps "
                            "(re-merging, same operand twice, empty record).  O: structured records with static / nested / piecewise / "
                            "dynamic / included fields, 1-3 overriding operands, 7 merge shapes.")
-    ck.coverage["partial"] = ("refinement proof for flat records of integer expressions (with priorities, valueless and dynamically named fields); "
-                              "nested / piecewise / included fields, strings, arrays, functions, contracts depending on fields: dependency analysis proved "
-                              "for the whole syntax, overriding behaviour checked by the direct oracles only; FieldDeps::Unknown compared, not proved")
+    ck.coverage["partial"] = ("refinement proof for flat records of integer expressions (with priorities, valueless and dynamically named fields, "
+                              "comparison contracts depending on fields); nested / piecewise / included fields, strings, arrays, functions, general contracts: "
+                              "dependency analysis proved for the whole syntax, overriding behaviour checked by the direct oracles only; "
+                              "FieldDeps::Unknown compared, not proved")
     ck.trusted += ["extraction: ExtrOcamlBasic only", "harness bins c07fv (prints real terms and RecordDeps), nkeval",
                    "generators checks/c07_gen.py (SplitMix64, VERIF_SEED)", "hooks: H1 (fuel), H4 (deps unknown)"]
 
